@@ -40,9 +40,22 @@ def pctEntries : List String → Option (List Latency.Pct)
     | some x, some xs => some (x :: xs)
     | _, _ => none
 
+/-- Suffix `/j:<e>,<e>` of a channel's latency token: the channel object carries a `nodes` member
+(`n` = null element, anything else = an object). -/
+def junkOf (t : String) : List Bool :=
+  match t.splitOn "/j:" with
+  | [_, j] => ((j.splitOn ",").filter (· != "")).map (· != "n")
+  | _ => []
+
+def stripJunk (t : String) : String :=
+  match t.splitOn "/j:" with
+  | e :: _ => e
+  | [] => t
+
 def e2eTok : P (Bool × List Latency.Pct)
   | [] => none
-  | t :: r =>
+  | t0 :: r =>
+    let t := stripJunk t0
     if t.startsWith "p:" then
       (pctEntries (((t.splitOn ":").drop 1).flatMap (fun x => (x.splitOn ",").filter (· != "")))).map (fun l => ((true, l), r))
     else some ((t == "1", []), r)
@@ -92,13 +105,14 @@ def chan : P Chan := fun ts => do
   let (glob, ts) ← int ts
   let (cc, ts) ← int ts
   let (paused, ts) ← bool ts
+  let up := match ts with | t :: _ => junkOf t | [] => []
   let ((e2e, pct), ts) ← e2eTok ts
   let (cl, ts) ← counted (nullable "K" client) ts
   let cnt : Counters :=
     { depth := depth, backendDepth := bk, inFlight := inflight,
       deferred := deferred, requeue := requeue, timeout := timeout, msgCount := msg,
       zoneLocal := zone, regionLocal := region, globalMsg := glob, clientCount := cc }
-  pure ({ name := name, cnt := cnt, paused := paused, clients := cl, e2e := e2e, pct := pct }, ts)
+  pure ({ name := name, cnt := cnt, paused := paused, clients := cl, e2e := e2e, pct := pct, upNodes := up }, ts)
 
 def topic : P Topic := fun ts => do
   let (name, ts) ← str ts
